@@ -62,10 +62,18 @@ class Socket:
         try:
             if timeout != 0:
                 self.sock.settimeout(timeout)
-            data = self.sock.recv(256)
+            data = b""
+            while len(data) < HEADER_SIZE:
+                chunk = self.sock.recv(256)
+                if not chunk:
+                    raise CommError("socket connection broken.")
+                data += chunk
             data_len = struct.unpack_from("<H", data, 2)[0]
             while len(data) - HEADER_SIZE < data_len:
-                data += self.sock.recv(256)
+                chunk = self.sock.recv(256)
+                if not chunk:
+                    raise CommError("socket connection broken.")
+                data += chunk
 
             return data
         except socket.error as err:
